@@ -22,6 +22,13 @@ LEAN_MODULES = ["DustVerif.Props.C26"]
 
 P = skeleton
 CORPUS = [
+    # seeded change C26_d: a `%n` parameter must not be trimmed — parameter " RED": " RED" satisfies `name = %0`, "RED" does not; `<=` likewise
+    P("ks", "\\sRED", "name = %0") + ["hold DATA user to=P2", "x-w2d s-write w 1 \\sRED", "x-w2d s-write w 2 RED", "x-w2d s-write w 3 RED\\s",
+                                       "x-w2d merge-held 3", "x-w2d s-take rf", "x-w2d s-take rc"],
+    P("ks", "x,RED\\s", "name <= %1") + ["x-w2d s-write w 1 RED", "x-w2d s-write w 2 RED\\s", "x-w2d s-write w 3 RED\\s\\s", "x-w2d s-write w 4 REE",
+                                          "x-w2d s-take rf", "x-w2d s-take rc"],
+    # quoted literal with inner leading / trailing blanks; blanks around the operand token do not count
+    P("ks", "-", "name =   '\\sRED\\s'  ") + ["x-w2d s-write w 1 \\sRED\\s", "x-w2d s-write w 2 RED", "x-w2d s-write w 3 \\sRED", "x-w2d s-take rf"],
     # D32 exemplar: failing sample first in a two-sample datagram (DESIGN 7.1): 5 must be delivered
     P("ki", "10", "value <= %0") + ["hold DATA user to=P2", "write w 1 50", "write w 2 5", "x-w2d merge-held 2", "take rf", "take rc"],
     # the same two samples with the stock pair-wise coalesce fault
@@ -88,7 +95,7 @@ def oracle(case, out):
         elif spec.status == "ok" and not operand_is_p0 and cv is None:
             v["cause"] = "filter-operand-ignored-parameter-0-used"
         return [v]
-    kcft = next(k for k, l in enumerate(case.lines) if l.startswith("cft "))
+    kcft = next(k for k, l in enumerate(case.lines) if l.startswith("cft ") or l.startswith("x-w2d s-cft "))
     rejected = out[kcft] == "err:BadParameter"
     if not rejected and out[kcft] != "ok":
         return [{"what": f"create_contentfilteredtopic answered {out[kcft]}", "at": kcft}]
